@@ -34,7 +34,7 @@ RULE = ('sequences A1..Ak;B, k <= 4, of generated documents (classes article/boo
         'registers; lists, $..$, $$..$$, \\mbox with text inside formulas, nested; sections, index, tabular, \\ifthenelse, \\openout, '
         '\\newif, \\newcount), closed or ending inside lists / formulas / boxes; B compared with B alone. Streams: one hand-written case '
         'per cell class, exhaustive pairs (A;B) over a pool of small documents, random sequences, B = one of the As (processing twice), '
-        'malformed documents. Non-trivial = at least one A writes a cell (register, class patch, open tracker) that B reads.')
+        'malformed documents, documents constructed up front (all TeXDocument/TeX objects exist before the first is processed), rendered runs with labels on sections / equations / items / figures. Non-trivial = at least one A writes a cell (register, class patch, open tracker) that B reads.')
 TRUSTED = ['partial by nature: the truth lives in Python class objects; the Model carries the bookkeeping only, which cells exist and '
            'which are re-created per document comes from the ast translator harness/translate/global_cells.py (fail-closed, trusted)',
            'the map from a generated document to the events it causes (which feature writes / reads which cell) is harness glue, '
@@ -43,7 +43,7 @@ TRUSTED = ['partial by nature: the truth lives in Python class objects; the Mode
            '(cross-checked against a freshly exec\'ed interpreter in the thorough tier)',
            'C05 (C05_enable_balanced_*): every returning path of readArgumentAndSource re-enables parameters -- used here as '
            'the transcription "disable ... enable" of one argument']
-ASSUMPTIONS = ['documents are processed with logging disabled and without rendering; process environment (sys.path, os.environ, '
+ASSUMPTIONS = ['documents are processed with logging disabled; only the stream `rendered` renders (HTML5, tree + HTML files + .paux compared); process environment (sys.path, os.environ, '
                'logging handlers) and the renderer-phase cells (Node.renderer, mixin/unmix) are listed in Gen/GlobalCells.v but '
                'not part of the comparison; generated identifiers are renamed in order of appearance',
                'memo attributes (@arguments, @locals) are compared through B only (they are caches of the class definition)']
